@@ -232,9 +232,9 @@ func TestVerifN(t *testing.T) {
 		for _, l := range logP.lines {
 			if m := nFailedRE.FindStringSubmatch(l); m != nil {
 				out.FailedNames = append(out.FailedNames, m[1])
-				if len(out.Unexpected) < 40 {
-					if len(l) > 1500 {
-						l = l[:1500]
+				if len(out.Unexpected) < 1000 {
+					if len(l) > 700 {
+						l = l[:700]
 					}
 					out.Unexpected = append(out.Unexpected, l)
 				}
